@@ -420,9 +420,19 @@ func verifCroltMain() {
 	}
 	frontier := [][]int{nil}
 	maxDepth := 0
-	for d := 1; d <= depth && len(frontier) > 0; d++ {
+	var deadline stdtime.Time
+	if secs, _ := strconv.Atoi(os.Getenv("VERIF_CROLT_BUDGET_S")); secs > 0 {
+		deadline = stdtime.Now().Add(stdtime.Duration(secs) * stdtime.Second)
+	}
+	capped := false
+	completed := 0
+	for d := 1; d <= depth && len(frontier) > 0 && !capped; d++ {
 		var next [][]int
 		for _, p := range frontier {
+			if !deadline.IsZero() && stdtime.Now().After(deadline) {
+				capped = true
+				break
+			}
 			for o := range ops {
 				if d == 1 && o%nshards != shard {
 					continue
@@ -454,6 +464,10 @@ func verifCroltMain() {
 		}
 		frontier = next
 		maxDepth = d
+		if !capped {
+			completed = d
+		}
 	}
-	enc.Encode(map[string]interface{}{"stats": map[string]interface{}{"states": states, "transitions": trans, "executions": execs, "max_depth": maxDepth, "violation_counts": seenSig, "frontier_exhausted": len(frontier) == 0}})
+	enc.Encode(map[string]interface{}{"stats": map[string]interface{}{"states": states, "transitions": trans, "executions": execs, "max_depth": maxDepth, "violation_counts": seenSig, "frontier_exhausted": len(frontier) == 0,
+		"capped": capped, "completed_depth": completed}})
 }
